@@ -1351,15 +1351,27 @@ func (f *VFSFile) runHydration(infos []*ltx.FileInfo) {
 		hydrationTXID = f.hydrator.TXID()
 	}
 
-	if currentTXID > hydrationTXID {
+	// Updates polled while hydration was running have not been written to the
+	// hydration file; the poller only does that once hydration is complete.
+	// Catch up to the current position and mark completion while holding f.mu
+	// so that no poll can advance the position in between.
+	for {
+		f.mu.Lock()
+		currentTXID = f.pos.TXID
+		if currentTXID <= hydrationTXID {
+			f.hydrator.SetComplete()
+			f.mu.Unlock()
+			break
+		}
+		f.mu.Unlock()
+
 		if err := f.hydrator.CatchUp(f.ctx, hydrationTXID, currentTXID); err != nil {
 			f.hydrator.SetErr(err)
 			f.logger.Error("hydration catch-up failed", "error", err)
 			return
 		}
+		hydrationTXID = f.hydrator.TXID()
 	}
-
-	f.hydrator.SetComplete()
 
 	// Clear cache since we'll now read from hydration file
 	f.cache.Purge()
